@@ -74,6 +74,8 @@ def mk_ty(t):
     if k == "opt":
         return tys.Option(mk_ty(t[1]))
     if k == "fn":
+        if len(t) > 3:      # opt-in (see "runtime requirements" below): ["fn", ins, outs, [extension names]]
+            return tys.FunctionType([mk_ty(x) for x in t[1]], [mk_ty(x) for x in t[2]], runtime_reqs=list(t[3]))
         return tys.FunctionType([mk_ty(x) for x in t[1]], [mk_ty(x) for x in t[2]])
     if k == "var":
         return tys.Variable(t[1], tys.TypeBound.Any if t[2] == "A" else tys.TypeBound.Copyable)
@@ -620,6 +622,9 @@ class _Interp:
                 if f.get("decl"):
                     sig = tys.PolyFuncType([mk_param(x) for x in f.get("params", [])],
                                            tys.FunctionType([mk_ty(t) for t in f["ins"]], [mk_ty(t) for t in f["outs"]]))
+                    if f.get("reqs"):       # opt-in (see "runtime requirements" below)
+                        sig = tys.PolyFuncType(sig.params, tys.FunctionType(sig.body.input, sig.body.output,
+                                                                            runtime_reqs=list(f["reqs"])))
                     r.funcs[f["name"]] = b.declare_function(f["name"], sig)
                     fbs.append(None)
                 else:
@@ -669,6 +674,10 @@ class Gen:
     # -- types
     COPY_ATOMS = ["B", "B", "I", "I", "F", "U", "CO", ["I", 3], ["usum", 3]]
     def rand_ty(self, depth=0, linear_ok=True, fn_ok=True):
+        if "hof" in self.allow and fn_ok and depth < 2 and self.rng.random() < 0.12:
+            # opt-in (not in the default `allow`: the default stream draws nothing here): function types are frequent
+            return ["fn", [self.rand_ty(depth + 1, linear_ok, False) for _ in range(self.rng.randint(0, 2))],
+                    [self.rand_ty(depth + 1, linear_ok, False) for _ in range(self.rng.randint(0, 2))]]
         r = self.rng.random()
         if linear_ok and r < 0.22:
             return self.rng.choice(["Q", "Q", "Q", "LQ"])
@@ -886,7 +895,7 @@ class _Scope:
                 if k in g.allow:
                     kinds += [k] * wgt
         if "call" in g.allow and (g.funcs or g.consts):
-            kinds += ["call"] * 2
+            kinds += ["call"] * (8 if "hof" in g.allow and g.funcs else 2)      # "hof" (opt-in): calls are frequent
         if "localfn" in g.allow and self.depth < g.max_depth and rng.random() < 0.3:
             kinds += ["localfn"]
         getattr(self, "s_" + rng.choice(kinds))()
@@ -899,6 +908,8 @@ class _Scope:
     def s_op(self):
         rng = self.rng
         choices = ["noop", "not", "divmod", "lin1", "lin2", "measure", "mktup", "untup", "tag", "cust", "callind", "alloc"]
+        if "hof" in self.g.allow:       # opt-in: higher-order calls are frequent
+            choices = choices + ["callind"] * 3
         k = rng.choice(choices)
         st = None
         if k == "noop":
@@ -1035,8 +1046,14 @@ class _Scope:
         ins, outs = f["ins"], f["outs"]
         if f.get("params"):
             ins, outs, inst, targs = self.instantiate(f)
-        if rng.random() < 0.25:
-            self.emit({"k": "loadfn", "func": f["name"], "inst": inst, "targs": targs}, [["fn", ins, outs]])
+        hof = "hof" in g.allow      # opt-in (not in the default `allow`: the default stream draws exactly what it drew)
+        if rng.random() < (0.5 if hof else 0.25):
+            ws = self.emit({"k": "loadfn", "func": f["name"], "inst": inst, "targs": targs}, [["fn", ins, outs]])
+            if hof and rng.random() < 0.7:
+                # the loaded function value is called right away (higher-order call of a statically known function)
+                args = self.args_for(ins)
+                if args is not None:
+                    self.emit({"k": "op", "op": ["callind"], "args": [ws[0]] + args, "via": self.via()}, list(outs))
             return
         args = self.args_for(ins)
         if args is None:
@@ -1309,7 +1326,7 @@ def _gen_program(self: Gen, root=None):
         elif "poly" in self.allow and r < 0.3:
             f = {"name": "rowpoly%d" % i, "params": [["list", ["type", "C"]]], "ins": [], "outs": [], "poly": "row",
                  "decl": True, "rowvar": True}
-        elif r < 0.5:
+        elif r < (0.75 if "hof" in self.allow else 0.5):     # "hof" (opt-in): declarations are frequent
             f = {"name": "decl%d" % i, "ins": self.rand_row(), "outs": self.rand_row(), "decl": True}
         else:
             f = {"name": "def%d" % i, "ins": self.rand_row(), "outs": None, "declare": rng.random() < 0.5}
@@ -1469,6 +1486,92 @@ def gen_tracked_program(rng: random.Random, size=8) -> dict:
         stmts.append({"k": "tout", "mode": "indexed", "args": args, "id": sid()})
     return {"root": "tdfg", "ins": ins, "in_wires": in_wires, "track_inputs": True, "stmts": stmts}
 
+
+# ----------------------------------------------------------------------------- runtime requirements (opt-in, per program)
+# Function types that differ only in their `runtime_reqs` (extension set) are different types.  with_reqs(prog, seed)
+# rewrites a generated program so that function types carry NON-EMPTY requirement sets: every function type spec
+# ["fn", ins, outs] becomes ["fn", ins', outs', reqs] with reqs a function of (seed, the spec), so equal types stay
+# equal and different types stay different (the program stays well formed), and a declared function whose type got
+# requirements is declared with them ("reqs" of the function entry; FuncDecl -> Call / LoadFunction -> CallIndirect).
+# Function types whose requirement set the BUILDERS decide keep the empty set: the type of a function constant
+# (val.Function: the inner signature of its Dfg), of a defined function (FuncDefn built by define_function /
+# define_main / a local define_function), and -- to keep declaration and instantiation in step without modelling
+# substitution here -- the body and the instantiations of polymorphic functions.  Programs not passed through
+# with_reqs are interpreted exactly as before.
+REQ_NAMES = ("prelude", "arithmetic.int", "verif.ext", "logic")
+
+def _is_fn_spec(x):
+    return isinstance(x, list) and len(x) == 3 and x[0] == "fn" and isinstance(x[1], list) and isinstance(x[2], list)
+
+def with_reqs(prog, seed, density=0.75):
+    import copy
+    import hashlib
+    pinned = set()
+    def pin(ins, outs):
+        pinned.add(tkey(["fn", list(ins), list(outs)]))
+    def scan(x):
+        if isinstance(x, dict):
+            if x.get("k") in ("call", "loadfn") and x.get("inst") is not None:
+                pinned.add(tkey(x["inst"]))
+            if x.get("k") == "localfn":
+                pin(x["ins"], x["body"]["out_tys"])
+            if "funcs" in x and x.get("root") == "module":
+                for f in x["funcs"]:
+                    if f.get("params") or not f.get("decl"):
+                        pin(f["ins"], f["outs"] if f.get("outs") is not None else f["body"]["out_tys"])
+            for v in x.values():
+                scan(v)
+        elif isinstance(x, list):
+            if len(x) == 2 and x[0] == "fn" and isinstance(x[1], dict):       # value spec: function constant
+                pin(x[1]["ins"], x[1]["body"]["out_tys"])
+            for v in x:
+                scan(v)
+    scan(prog)
+    def reqs_of(key):
+        if key in pinned:
+            return None
+        h = hashlib.sha256(("%s|%s" % (seed, key)).encode()).digest()
+        if h[0] >= 256 * density:
+            return None
+        n = 1 + h[1] % 3
+        names = [REQ_NAMES[(h[2] + j * (1 + h[3] % 3)) % len(REQ_NAMES)] for j in range(n)]
+        out = []
+        for a in names:
+            if a not in out:
+                out.append(a)
+        return out
+    def rw(x):
+        if isinstance(x, dict):
+            y = {k: rw(v) for k, v in x.items()}
+            if x.get("decl") and not x.get("params") and "ins" in x and "outs" in x and "name" in x:
+                rq = reqs_of(tkey(["fn", list(x["ins"]), list(x["outs"])]))
+                if rq:
+                    y["reqs"] = rq
+            return y
+        if isinstance(x, list):
+            if _is_fn_spec(x):
+                rq = reqs_of(tkey(x))
+                y = ["fn", rw(x[1]), rw(x[2])]
+                return y + [rq] if rq else y
+            return [rw(v) for v in x]
+        return x
+    return rw(copy.deepcopy(prog))
+
+def fn_reqs_count(prog) -> int:
+    """how many function type specs with requirements a program text has (diagnostic)"""
+    n = 0
+    def walk(x):
+        nonlocal n
+        if isinstance(x, dict):
+            for v in x.values():
+                walk(v)
+        elif isinstance(x, list):
+            if len(x) == 4 and x[0] == "fn" and isinstance(x[3], list) and x[3]:
+                n += 1
+            for v in x:
+                walk(v)
+    walk(prog)
+    return n
 
 def gen_program(rng: random.Random, root=None, **kw) -> dict:
     if root == "tdfg":
